@@ -6,12 +6,23 @@ What is proved for all generator sets: the cells cover the box, two cells overla
 bisector hyperplane (a proper affine subspace when the generators are distinct), the generator is
 strictly inside each of its half spaces (so its cell contains a neighbourhood of it within the box:
 positive measure), unit thickness of the unused axes.
-`sum_volume_eq_partial`: the measure-theoretic conclusion "Σ volume = volume of the box" from covering +
-null overlaps is NOT formalised (it needs Lebesgue measure of polytopes); the executable exact model
-asserts it on every tessellation it builds (exact rational volumes sum exactly to the box volume).
+`sum_measure_eq`, `cell_measure_pos`, `overlap_null` (Proofs/MeasureTiling.lean, Mathlib measure theory): for any Haar
+measure (length, area, volume) on a finite-dimensional inner-product space the measures of the cells `Vor G i ∩ B` sum to
+the measure of the box, two cells overlap in a null set, and every cell whose generator lies in the (convex, solid) box —
+boundary included — has positive measure.  Together with `C01.run_eq_voronoi` (the clipping loop returns `Vor G i ∩ B`)
+this is C02 for reflective boxes at full strength, in every dimension.
+`sum_measure_eq_periodic`, `sum_measure_eq_box_lattice` (Proofs/MeasurePeriodic.lean): for periodic boxes the cells are
+`VorP Λ G i` (nearest among all generators and ALL their lattice images, own images included); their union is a fundamental
+domain of the lattice (every point has a nearest image because bounded sets hold finitely many lattice points; translates
+overlap in null sets), hence the measures sum to the measure of the box — for every lattice spanned by a basis, every
+dimension, every Haar measure.  `C06.images27_suffice` shows that the 3^d images the code enumerates decide `VorP`.
+What remains trusted in both cases: the identification of the code's signed tetrahedron sum with the Lebesgue measure of
+that set (DESIGN §4 item 2), certified per run.
 -/
 import MVoro.Proofs.VorSet
 import MVoro.Proofs.Periodic
+import MVoro.Proofs.MeasureTiling
+import MVoro.Proofs.MeasurePeriodic
 
 namespace MVoro.C02
 open MVoro.VorSet
@@ -49,6 +60,50 @@ theorem generator_strictly_inside (g q : E) (h : q ≠ g) :
 
 /-- **T02.3** unit thickness: the measure of a prism over the normalised axis `[-1/2, 1/2]` is its base measure -/
 theorem unit_thickness (base : ℝ) : base * (1/2 - (-1/2)) = base := MVoro.Periodic.prism_volume base
+
+section measure
+open MeasureTheory
+variable {F : Type*} [NormedAddCommGroup F] [InnerProductSpace ℝ F] [FiniteDimensional ℝ F] [MeasurableSpace F] [BorelSpace F]
+
+/-- **T02.2** the measures of the cells sum to the measure of the box, for pairwise different generators, any measurable
+box, any Haar measure (length / area / volume), any dimension -/
+theorem sum_measure_eq {ι : Type*} [Fintype ι] [Nonempty ι] (G : ι → F) (hG : Function.Injective G)
+    (μ : Measure F) [μ.IsAddHaarMeasure] (B : Set F) (hB : MeasurableSet B) :
+    ∑ i, μ (Vor G i ∩ B) = μ B := MVoro.MeasureTiling.sum_measure_eq G hG μ B hB
+
+/-- **T02.2** every cell has strictly positive measure when its generator lies in the closed convex box with non-empty
+interior — also on a face, an edge or a corner of the box -/
+theorem cell_measure_pos {ι : Type*} [Fintype ι] (G : ι → F) (μ : Measure F) [μ.IsAddHaarMeasure] (B : Set F)
+    (hconv : Convex ℝ B) (hint : (interior B).Nonempty) (i : ι) (hi : G i ∈ B) : 0 < μ (Vor G i ∩ B) :=
+  MVoro.MeasureTiling.cell_measure_pos G μ B hconv hint i hi
+
+/-- **T02.2** two cells of different generators overlap in a null set -/
+theorem overlap_null {ι : Type*} (G : ι → F) (μ : Measure F) [μ.IsAddHaarMeasure] {i j : ι} (h : G i ≠ G j) :
+    μ (Vor G i ∩ Vor G j) = 0 := MVoro.MeasureTiling.overlap_null G μ h
+
+/-- **T02.2, periodic** the measures of the lattice-periodic cells sum to the measure of any fundamental domain of a locally
+finite lattice, for generators pairwise different modulo the lattice -/
+theorem sum_measure_eq_periodic {ι : Type*} [Fintype ι] [Nonempty ι] (Λ : AddSubgroup F) [Countable Λ] (G : ι → F)
+    (hinj : ∀ i j (l : Λ), G i = G j + l → i = j ∧ l = 0)
+    (hfin : ∀ s : Set F, Bornology.IsBounded s → (s ∩ (Λ : Set F)).Finite)
+    (μ : Measure F) [μ.IsAddHaarMeasure] (D : Set F) (hD : IsAddFundamentalDomain Λ D μ) :
+    ∑ i, μ (MVoro.MeasurePeriodic.VorP Λ G i) = μ D :=
+  MVoro.MeasurePeriodic.sum_measure_eq_periodic hinj hfin μ D hD
+
+/-- **T02.2, periodic box** the same for the lattice spanned by a basis (`b a = wₐ eₐ` for a box) and the half-open
+parallelepiped (box) it spans -/
+theorem sum_measure_eq_box_lattice {κ : Type*} [Fintype κ] (b : Module.Basis κ ℝ F) {ι : Type*} [Fintype ι] [Nonempty ι]
+    (G : ι → F)
+    (hinj : ∀ i j (l : (Submodule.span ℤ (Set.range b)).toAddSubgroup), G i = G j + l → i = j ∧ l = 0)
+    (μ : Measure F) [μ.IsAddHaarMeasure] :
+    ∑ i, μ (MVoro.MeasurePeriodic.VorP (Submodule.span ℤ (Set.range b)).toAddSubgroup G i) = μ (ZSpan.fundamentalDomain b) :=
+  MVoro.MeasurePeriodic.sum_measure_eq_box_lattice b G hinj μ
+
+/-- non-vacuity: two generators on the real line in the unit interval: the two lengths are positive and sum to 1 -/
+example : ∑ i : Fin 2, volume (Vor (![0, 1] : Fin 2 → ℝ) i ∩ Set.Icc 0 1) = volume (Set.Icc (0 : ℝ) 1) :=
+  sum_measure_eq _ (by intro a b h; fin_cases a <;> fin_cases b <;> simp_all) volume _ measurableSet_Icc
+
+end measure
 
 /-- non-vacuity: two generators on the real line -/
 example : (Set.univ : Set ℝ) = ⋃ i : Fin 2, (Vor (![0, 1] : Fin 2 → ℝ) i ∩ Set.univ) := cells_cover _ _
